@@ -11,7 +11,7 @@ import (
 
 func init() {
 	register(&Prop{
-		ID: "C15",
+		ID:          "C15",
 		Explanation: "Decides which request data can reach the bypass decisions: the string given to every skip-auth route regex is, on every path, query- and fragment-free — the Path of url.Parse(u), u cut at the first '?', or u itself under the fact that it contains no '?', where u is the guarded request-URI accessor's result (taint rule, unknown origin = violation); isAllowedMethod is true only for an empty rule method or equality with req.Method, isAllowedRoute only when both predicates hold for the same route element, isAllowedPath returns the negated match exactly under route.negate, and the rule builder upper-cases the method and sets negate from '!='; preflight needs the flag and OPTIONS (C01.R4); isTrustedIP is true only as trustedIPs.Has(ip) for the non-nil, error-free result of GetClientIP(p.realClientIPParser, req); NetSet.Has is true only on a hit of ipNetMap.has for the same address, which is a lookup of Mask(ip, m.mask).String(); AddIPNet inserts IP.String() only into a per-mask map whose mask size was compared equal to the network's (or recurses after creating one with the network's mask), and both sides select the family through getNetMaps; ParseIPNet rejects CIDRs with host bits set.",
 		NotDecided:  "the regular-expression engine, CIDR mask arithmetic over all addresses, IPv4-mapped IPv6 normalisation inside net.IP (values).",
 		Run:         runC15,
